@@ -8,9 +8,10 @@ import (
 )
 
 // scriptedWriter fails according to a script:
-//   from:    every Write call with index >= k fails
-//   only:    only call k fails; later calls succeed again
-//   partial: call k accepts j bytes (j < len) and returns an error; later calls succeed
+//
+//	from:    every Write call with index >= k fails
+//	only:    only call k fails; later calls succeed again
+//	partial: call k accepts j bytes (j < len) and returns an error; later calls succeed
 type scriptedWriter struct {
 	mode     string
 	k        int
